@@ -69,6 +69,14 @@ CHECKS = {
          "the plain tables byte for byte, debug/verbose builds must be byte-identical to the default, and all builds must shape 40-150 texts identically through libgraphite2."),
    note=TB + "LZ4 decoder is an executable Lean definition (partial def), not a proved one; the LZ4-HC compressor is validated per output only. Collision passes are not generated here (C20).",
    design="4/C15"),
+ "C13": dict(
+   technique="Lean 4 order-independence theorems for the pointer-ordered containers + perturbation/concurrency exploration of the real binary",
+   text=("Proof: Det.key_perm and Det.sameSet_perm_left (machine-class key and grouping are invariant under any iteration order of the pointer-ordered source-class sets), "
+         "Det.attr_cell_order_independent / GA.codeWinner_perm (the stored glyph-attribute assignment does not depend on the order in which the value maps present assignments). "
+         "Exploration: each program (three generated families + suite programs) is compiled 14+ times: repetitions, MALLOC_PERTURB_, large environment, locale/TZ, ASLR off, another working "
+         "directory, and 6-12 concurrent compilations sharing the directory and /tmp; (font sha256, diagnostics sha256, exit status) must all be equal."),
+   note=TB + "The schedule/heap-layout quantifier is explored (whatever the scheduler produced), not proved; wall-clock dependence is not perturbed. Theorems cover the identified pointer-ordered iterations only.",
+   design="4/C13", category="proof"),
  "C14": dict(
    technique="Lean 4 theorem (skip-bit soundness for all glyph strings and positions) + its hypothesis evaluated on the decoded *skipPasses* attributes of real output + differential shaping of default vs -p builds with libgraphite2",
    text=("Proof: Grc.PB.skip_sound — if every effective rule of a pass has an input item all of whose class members have the pass's skip bit cleared, then on every glyph string whose glyphs all "
